@@ -328,6 +328,11 @@ def check_threads(i, gran, res, sub=None, want=None):
         if sub is not None and j not in sub:
             continue
         calls = (a, bcall)
+        if a[0] == 'glob.tilde' and bcall[0] == 'glob.tilde' and a[3] != bcall[3]:
+            # the two calls need different environments (HOME directory present / absent) and the environment is
+            # process-wide: running them concurrently is a conflict the harness would create, not the library
+            res.notes['thread_pair_skipped_conflicting_environment'] += 1
+            continue
         # default schedules and every single preemption of either thread
         vals, counts = run_schedule(calls, 0, None, gran)
         if vals is None:
